@@ -181,6 +181,9 @@ func (i *Index) unmarshalBinary(data []byte) error {
 	if i.capacity > uint64(reader.Len())/4 {
 		return fmt.Errorf("capacity %d exceeds the %d bytes of values in the index", i.capacity, reader.Len())
 	}
+	if i.end < i.start || i.capacity < i.end-i.start+1 {
+		return fmt.Errorf("capacity %d does not cover the slot range %d..%d", i.capacity, i.start, i.end)
+	}
 
 	i.values = make([]int64, i.capacity)
 	for j := uint64(0); j < i.capacity; j++ {
